@@ -223,9 +223,9 @@ def oracle(history, steps):
                                       % (name, ix, e, d)))
                         break
                 seen.append((d, ks))
-            if fails:
+            if any(l not in known_labels for (_, l, _) in fails) or len(fails) > 50:
                 break
-        if fails:
+        if any(l not in known_labels for (_, l, _) in fails) or len(fails) > 50:
             break
     return fails
 
